@@ -1,8 +1,9 @@
 # -*- coding: utf-8 -*-
 """C01 Canonical SMILES, equality and hash depend on structure only -- structural clauses."""
-from ..r_canon import rule_hash_inputs, rule_order_free_hash, rule_final_ranking, rule_eq_hash_wiring
+from ..r_canon import rule_hash_inputs, rule_order_free_hash, rule_final_ranking, rule_eq_hash_wiring, rule_bfs_distance
 from ..r_protocol import run_protocol
 from ..r_alias import rule_fix_stereo_exit, rule_no_mutation_of_cached
+from ..r_construct import rule_seeded_string_complete as _rule_seeded
 
 LEVEL = 'other'
 REFINE = ['chython.algorithms.morgan:_morgan']
@@ -22,3 +23,5 @@ def run(ck, repo):
     # the stereo-aware ranks the writer uses are dropped whenever labels change, and the cached ranks are never edited in place
     rule_fix_stereo_exit(ck, repo, 'C01.D4-stereo-ranks-dropped')
     rule_no_mutation_of_cached(ck, repo, 'C01.D4-cached-ranks-not-mutated')
+    rule_bfs_distance(ck, repo, 'C01.D2-bfs-distance', lambda f: f.module.name == 'chython.algorithms.smiles', floor=2)
+    _rule_seeded(ck, repo, 'C01.D1-seeded-string')
